@@ -256,6 +256,39 @@ def check(kind):
         "unwrap": deal.introspection.unwrap(d) is f,
         "self": k.m(3)[0] is k, "cls": K.cm(3)[0] is K and k.cm(3)[0] is K, "static": K.sm(3) == 3 and k.sm(3) == 3,
     }
+
+def callables():
+    # callable objects that are not plain functions -- unhashable instances with __call__, C callables without an introspectable
+    # signature -- under satisfied contracts in the explicit form (the form that needs nothing from the callable but the call)
+    import dataclasses, operator
+    @dataclasses.dataclass
+    class Scale:
+        k: int
+        def __call__(self, x): return [self.k * x]
+    class Eq:
+        def __eq__(self, other): return True
+        def __call__(self, x): return [x]
+    out = {}
+    cases = {"dataclass instance": (Scale(3), (5,)), "instance with __eq__ and no __hash__": (Eq(), (5,)),
+             "operator.itemgetter": (operator.itemgetter(1), ([7, [8]],)), "max": (max, ([1], [2])), "getattr": (getattr, (Eq(), "__call__"))}
+    for name, (fn, args) in cases.items():
+        d = deal.pre(lambda *a: True)(deal.post(lambda r: True)(fn))
+        try:
+            want = fn(*args)
+            got = d(*args)
+            out[name] = (got == want) if name != "max" else (got is want)
+        except BaseException as e:
+            out[name] = type(e).__name__
+    class Boom(Exception): pass
+    the = Boom("x")
+    class Raiser:
+        __hash__ = None
+        def __call__(self): raise the
+    d = deal.pre(lambda: True)(Raiser())
+    try: d(); out["exception object of an unhashable callable"] = False
+    except Boom as e: out["exception object of an unhashable callable"] = e is the
+    except BaseException as e: out["exception object of an unhashable callable"] = type(e).__name__
+    return out
 '''
 
 
@@ -270,5 +303,11 @@ def run(ctx, fr, model_available=True):
             fr.violations.append({'scenario': {'family': 'metadata', 'kind': kind}, 'impl': r, 'signature': None,
                                   'what': f'the decorated {kind} callable does not keep: {bad}'})
     fr.samples.append({'family': 'metadata', 'result': res[0]})
+    r = impl.run_impl('pyexec.py', {'src': META_SRC, 'calls': [['callables', []]]})[0]
+    fr.evaluations += 6; fr.samples.append({'family': 'callable objects that are not plain functions', 'result': r})
+    bad = {k: v for k, v in (r.items() if isinstance(r, dict) else [('error', r)]) if v is not True}
+    if bad:
+        fr.violations.append({'scenario': {'family': 'callable-objects', 'case': sorted(bad)[0]}, 'impl': r, 'signature': None,
+                              'what': f'under satisfied explicit contracts the decorated callable differs from the original (result / exception object): {bad}'})
 def search(ctx, fr, model_available=True): return base_scn.search(_me, ctx, fr, model_available)
 classify = base_scn.classify
